@@ -347,7 +347,7 @@ def run_long(st: Stats, tier, version):
         return i
 
     try:
-        out = rig.run(drive(), limit=10 ** 7)
+        out = rig.run(drive(), limit=10 ** 7, budget=3600)
         if out[0] != "ok":
             problems.append((-1, len(model.frames), f"operation raised: {str(out[1])[:120]}"))
         for i, n, prob in problems:
